@@ -128,6 +128,7 @@ def gen_decl(rnd, k, opts=None):
                             bind=(["%sIF%d" % (P, i)] if i in binds else []) + (["%sIF%db" % (P, i)] if i in binds2 else []), **{"async": False})
         else:
             provs[i] = dict(kind="fn", fn="New%sT%d" % (P, i), requires=req, provides=prv, fallible=fall[i], node=i,
+                            variadic=bool(req and req[-1].startswith("[]") and rnd.random() < 0.6),     # func(..., xs ...Elem), fed by a []Elem
                             errtype=("%sErr" % P if rnd.random() < 0.25 else "error"),
                             nest=rnd.choice(["async_outer", "bind_outer"]), lit=(rnd.random() < 0.15),
                             bind=(["%sIF%d" % (P, i)] if i in binds else []) + (["%sIF%db" % (P, i)] if i in binds2 else []), **{"async": asyncs[i]})
@@ -786,6 +787,12 @@ def term_expr(t, name):
     return "%s.Term()" % name
 
 
+def param_list(p):
+    """parameter list of a provider function; the last parameter of a variadic provider is written ...Elem"""
+    n = len(p["requires"])
+    return ", ".join("p%d %s" % (q, ("..." + t[2:]) if (p.get("variadic") and q == n - 1) else t) for q, t in enumerate(p["requires"]))
+
+
 def render_provider(d, i, p):
     """Go source of an instrumented provider function"""
     P = d["prefix"]
@@ -798,7 +805,7 @@ def render_provider(d, i, p):
         if p.get("inline"):
             return ""       # written as a composite literal inside kessoku.Value(...)
         return "var %s = &%s{S: \"V:%s\"}\n" % (p["var"], t.lstrip("*"), p["var"])
-    params = ", ".join("p%d %s" % (q, t) for q, t in enumerate(p["requires"]))
+    params = param_list(p)
     errty = p.get("errtype", "error")
     rets = [g[0] for g in p["provides"]] + ([errty] if p["fallible"] else [])
     args = ", ".join(term_expr(t, "p%d" % q) for q, t in enumerate(p["requires"]))
@@ -848,9 +855,11 @@ def provider_expr(d, p):
     e = "kessoku.Provide(%s)" % p["fn"]
     if p.get("lit"):
         # a function literal as provider (it forwards to the instrumented function)
-        params = ", ".join("p%d %s" % (q, t) for q, t in enumerate(p["requires"]))
+        params = param_list(p)
         rets = [g[0] for g in p["provides"]] + ([p.get("errtype", "error")] if p["fallible"] else [])
-        e = "kessoku.Provide(func(%s) (%s) { return %s(%s) })" % (params, ", ".join(rets), p["fn"], ", ".join("p%d" % q for q in range(len(p["requires"]))))
+        nreq = len(p["requires"])
+        e = "kessoku.Provide(func(%s) (%s) { return %s(%s) })" % (params, ", ".join(rets), p["fn"],
+                                                                  ", ".join("p%d%s" % (q, "..." if (p.get("variadic") and q == nreq - 1) else "") for q in range(nreq)))
     if p["async"] and p.get("nest") == "bind_outer":
         e = "kessoku.Async(%s)" % e          # Bind[I](Async(Provide(f))): the other legal nesting
         for iface in p.get("bind", []):
